@@ -113,6 +113,57 @@ class CropMonitor(taps.Monitor):
         ctx.see("crop_kinds", (cls, nd, str(st["px"].dtype), side or "inside", st["cons"]))
 
 
+class CropAroundMonitor(taps.Monitor):
+    """crop_to_pointcloud / crop_to_pointcloud_proportion: the block between floor(min - pad) and ceil(max + pad) of the
+    point cloud's bounds, pad = boundary resp. proportion x (smallest | largest) per-axis range - with crop's boundary contract."""
+
+    def __init__(self, proportion):
+        self.proportion = proportion
+        self.name = "crop_to_pointcloud" + ("_proportion" if proportion else "")
+
+    def pre(self, ctx, args, kw):
+        im = args[0]
+        pc = args[1] if len(args) > 1 else kw.get("pointcloud")
+        if not taps.is_menpo(im) or not taps.is_menpo(pc) or pc.n_dims != im.n_dims or not np.isfinite(pc.points).all():
+            return None
+        P = np.asarray(pc.points, dtype=float)
+        rngs = P.max(0) - P.min(0)
+        if self.proportion:
+            prop = args[2] if len(args) > 2 else kw.get("boundary_proportion")
+            minimum = args[3] if len(args) > 3 else kw.get("minimum", True)
+            cons = args[4] if len(args) > 4 else kw.get("constrain_to_boundary", True)
+            rt = args[5] if len(args) > 5 else kw.get("return_transform", False)
+            pad = float(prop) * float(rngs.min() if minimum else rngs.max())
+        else:
+            pad = args[2] if len(args) > 2 else kw.get("boundary", 0)
+            cons = args[3] if len(args) > 3 else kw.get("constrain_to_boundary", True)
+            rt = args[4] if len(args) > 4 else kw.get("return_transform", False)
+            pad = float(pad)
+        lo, hi = np.floor(P.min(0) - pad).astype(int), np.ceil(P.max(0) + pad).astype(int)
+        if not (hi > lo).all():
+            return None
+        return {"px": im.pixels.copy(), "lo": lo, "hi": hi, "cons": bool(cons), "rt": bool(rt)}
+
+    def post(self, ctx, st, args, kw, res, exc):
+        from menpo.image.base import ImageBoundaryError
+        cls = type(args[0]).__name__
+        shape = np.array(st["px"].shape[1:])
+        lo, hi = st["lo"], st["hi"]
+        clo, chi = np.clip(lo, 0, shape), np.clip(hi, 0, shape)
+        outside = bool((clo != lo).any() or (chi != hi).any())
+        if outside and not st["cons"]:
+            if not isinstance(exc, ImageBoundaryError):
+                ctx.fail("request_outside_the_image_not_refused", cls=cls, mech=self.name + ":" + ("silently_altered" if exc is None else type(exc).__name__))
+            return
+        if (chi <= clo).any() or exc is not None:
+            return          # empty / refused requests are judged at crop itself
+        if st["rt"]:
+            res = res[0]
+        exp = st["px"][(slice(None),) + tuple(slice(a, b) for a, b in zip(clo, chi))]
+        if res.pixels.shape != exp.shape or not np.array_equal(res.pixels, exp, equal_nan=exp.dtype.kind == "f"):
+            ctx.fail("cropped_pixels_are_not_the_source_block", cls=cls, mech=self.name, expected_shape=list(exp.shape), got_shape=list(res.pixels.shape))
+
+
 def delta(ph):
     """Row offsets of a patch of height ph relative to its centre (before rounding)."""
     return -ph / 2.0 + (ph % 2) / 2.0 + np.arange(ph)
@@ -250,6 +301,8 @@ class SetPatchesMonitor(taps.Monitor):
 def setup(ctx):
     I = taps.mod("menpo.image.base").Image
     taps.tap(ctx, I, "crop", CropMonitor())
+    taps.tap(ctx, I, "crop_to_pointcloud", CropAroundMonitor(False))
+    taps.tap(ctx, I, "crop_to_pointcloud_proportion", CropAroundMonitor(True))
     taps.tap(ctx, I, "extract_patches", PatchMonitor())
     taps.tap(ctx, I, "set_patches", SetPatchesMonitor())
 
@@ -308,6 +361,12 @@ def w_crop(ctx, rng, i):
         try:
             im.crop_to_landmarks(group="g0", boundary=float(rng.integers(0, 3)), constrain_to_boundary=bool(rng.random() < 0.7))
             im.crop_to_landmarks_proportion(float(rng.uniform(0, 0.5)), group="g0", minimum=bool(rng.random() < 0.5))
+            im.crop_to_landmarks_proportion(float(rng.uniform(0, 1.5)), group="g0", minimum=bool(rng.random() < 0.5), constrain_to_boundary=bool(rng.random() < 0.5))
+            # integer landmark positions with a fractional padding
+            import menpo.shape as ms
+            pc = ms.PointCloud(np.round(im.landmarks["g0"].points))
+            im.crop_to_pointcloud_proportion(pc, float(rng.uniform(0.05, 1.2)), minimum=bool(rng.random() < 0.5), constrain_to_boundary=bool(rng.random() < 0.6))
+            im.crop_to_pointcloud(pc, boundary=float(rng.uniform(0, 3)), constrain_to_boundary=bool(rng.random() < 0.6))
         except (ImageBoundaryError, ValueError):
             pass      # ValueError: the request is empty after flooring/ceiling (documented)
     if cls == "MaskedImage" and rng.random() < 0.5:
